@@ -277,7 +277,7 @@ func plank(r *hx.Rng) (w, h, dd float64) {
 }
 
 func round4Cases(r *hx.Rng, thorough bool) {
-	// --- sizes at scales 2^±40 (all dimensions scaled together) and extreme aspect ratios (2^±12 between dimensions) ---
+	// --- sizes at scales 2^±40 (all dimensions scaled together) and extreme aspect ratios (up to 2^12 between any two dimensions) ---
 	exps := []int{40, -40}
 	if thorough {
 		exps = []int{40, -40, 20, -20, 80, -80, 12, -12}
@@ -297,7 +297,7 @@ func round4Cases(r *hx.Rng, thorough bool) {
 		}
 	}
 	for _, fam := range []string{"cyl", "cubeW", "cubeQ"} {
-		for _, ab := range [][2]int{{12, 0}, {-12, 0}, {0, 12}, {12, 12}, {-12, 12}, {6, -6}} {
+		for _, ab := range [][2]int{{12, 0}, {-12, 0}, {0, 12}, {12, 12}, {-6, 6}, {6, -6}} {
 			d := smallCounts(r, fam)
 			one(withSizes(d, randSize(r), math.Ldexp(1, ab[0]), math.Ldexp(1, ab[1])), "full")
 			run.Count("aspect:2^12")
@@ -386,8 +386,8 @@ func round4Cases(r *hx.Rng, thorough bool) {
 // sampleScaled: one random family at a random power-of-two scale in 2^-40 … 2^40 with random aspect ratios up to 2^12
 func sampleScaled(r *hx.Rng) {
 	d := smallCounts(r, hx.Pick(r, allFams))
-	a := math.Ldexp(1, r.Range(-12, 12))
-	b := math.Ldexp(1, r.Range(-12, 12))
+	a := math.Ldexp(1, r.Range(-6, 6)) // any two dimensions within 2^12 of each other
+	b := math.Ldexp(1, r.Range(-6, 6))
 	if r.Bool() {
 		a, b = 1+r.Float(), 1/(1+r.Float())
 	}
